@@ -15,18 +15,20 @@ __CPROVER_requires(WF_VEC(s->POOLOWNER->POOL, s->ic->PRES.n))                   
 __CPROVER_requires(0 <= gk && gk < g_nv && (gk_kind == K_FREE || gk_kind == K_PRES || gk_kind == K_ZERO))                               \
 __CPROVER_requires(gk_kind == K_PRES ==> (0 <= gk_pos && gk_pos < s->ic->PRES.n && s->ic->PRES.data[gk_pos] == gk))                     \
 __CPROVER_requires(gk_kind == K_ZERO ==> (0 <= gk_pos && gk_pos < s->ic->ZERO.n && s->ic->ZERO.data[gk_pos] == gk))                     \
+/* type invariant: no NaN among the values involved for the ghost coordinate */                                                          \
+__CPROVER_requires(!__CPROVER_isnand(s->V.data[gk]) && (gk_kind == K_PRES ==> !__CPROVER_isnand(s->POOLOWNER->POOL.data[gk_pos])))            \
 __CPROVER_requires(!s->INVAL && !s->OTHERINVAL)                                                                                         \
 __CPROVER_assigns(s->INVAL, __CPROVER_object_whole(s->V.data))                                                                          \
 /* 1: returns false iff there is nothing prescribed or known-zero ... */                                                               \
 __CPROVER_ensures(__CPROVER_return_value == !(s->ic->PRES.n == 0 && s->ic->ZERO.n == 0))                                                \
 /* 2: ... and then nothing is invalidated */                                                                                           \
 __CPROVER_ensures(s->INVAL == __CPROVER_return_value)                                                                                   \
-/* 3: prescribed coordinate takes EXACTLY (bit pattern) its prescribed value */                                                        \
-__CPROVER_ensures(gk_kind == K_PRES ==> BITS(s->V.data[gk]) == BITS(s->POOLOWNER->POOL.data[gk_pos < s->ic->PRES.n ? gk_pos : 0]))       \
+/* 3: prescribed coordinate takes EXACTLY its prescribed value (same value, same sign of zero; values are non-NaN) */                                                        \
+__CPROVER_ensures(gk_kind == K_PRES ==> SAME(s->V.data[gk], s->POOLOWNER->POOL.data[gk_pos < s->ic->PRES.n ? gk_pos : 0]))       \
 /* 4: known-zero coordinate is +0.0 */                                                                                                 \
-__CPROVER_ensures(gk_kind == K_ZERO ==> BITS(s->V.data[gk]) == 0)                                                                       \
+__CPROVER_ensures(gk_kind == K_ZERO ==> PZERO(s->V.data[gk]))                                                                       \
 /* 5: frame: every other coordinate keeps its bit pattern */                                                                           \
-__CPROVER_ensures(gk_kind == K_FREE ==> BITS(s->V.data[gk]) == __CPROVER_old(BITS(s->V.data[gk])))
+__CPROVER_ensures(gk_kind == K_FREE ==> SAME(s->V.data[gk], __CPROVER_old(s->V.data[gk])))
 
 PRESCRIBE_CONTRACT(Rep_prescribeQ, q, presQ, zeroQ, tc, presQPool, ghost_q_invalidated, ghost_u_invalidated);
 PRESCRIBE_CONTRACT(Rep_prescribeU, u, presU, zeroU, cpc, presUPool, ghost_u_invalidated, ghost_q_invalidated);
